@@ -47,6 +47,15 @@ pub fn determinism_case(files: &Files, rng: &mut Rng) -> Vec<(&'static str, Json
                 differing = Some(("shuffled insertion".to_owned(), o));
             }
         }
+        // the same contents reached through a history of additions, replacements, removals and calls
+        // (the later content of an id wins; `through_history` ends by adding every file in order)
+        for k in 0..2u64 {
+            let (_, o, ops) = crate::suites::through_history(files, rng.next() ^ k);
+            runs += 1;
+            if o != first && differing.is_none() {
+                differing = Some((format!("history {}", ops.to_string()), o));
+            }
+        }
         // another thread (new base key for the hash seeds)
         let fs = files.clone();
         let o = std::thread::spawn(move || validate_sorted(&fs).1).join().unwrap();
